@@ -334,7 +334,80 @@ func checkC04PerToken(c *ProcCase, r *simrt.Result) *Outcome {
 	return o
 }
 
+// genC04Stale: a token passes a first exclusive gateway, waits in a task that stores nothing, and then meets a second
+// gateway whose conditions read a variable that a sibling token's task has changed in between (or not yet): every
+// evaluation has to see the variables as they are at that moment, not as they were when the token last looked.
+func genC04Stale(d *Draw) Case {
+	defs := &Definitions{}
+	g := &Graph{ID: "P1", Executable: true}
+	defs.Procs = []*Graph{g}
+	init := d.Bool()
+	vars := map[string]any{"flip": init}
+	g.addNode(&Node{ID: "Start", Kind: "start"})
+	g.addNode(&Node{ID: "F", Kind: "and"})
+	g.connect(defs, "Start", "F", nil, -1)
+	g.addNode(&Node{ID: "X1", Kind: "xor"})
+	g.connect(defs, "F", "X1", nil, -1)
+	g.addNode(&Node{ID: "TA", Kind: "task"}) // declares no results: answering it stores nothing
+	g.connect(defs, "X1", "TA", &Cond{Var: "flip", Want: init}, -1)
+	g.addNode(&Node{ID: "TD1", Kind: "task", Results: []string{"r_TD1"}})
+	df := g.connect(defs, "X1", "TD1", nil, -1)
+	g.Node("X1").Default = df.ID
+	g.addNode(&Node{ID: "ED1", Kind: "end"})
+	g.connect(defs, "TD1", "ED1", nil, -1)
+	cur := "TA"
+	if d.Bool() {
+		g.addNode(&Node{ID: "TA2", Kind: "task"})
+		g.connect(defs, "TA", "TA2", nil, -1)
+		cur = "TA2"
+	}
+	g.addNode(&Node{ID: "X2", Kind: "xor"})
+	g.connect(defs, cur, "X2", nil, -1)
+	lang := ""
+	if d.Bool() {
+		lang = "xpath"
+	}
+	for _, br := range []struct {
+		id   string
+		want bool
+	}{{"Told", init}, {"Tnew", !init}} {
+		g.addNode(&Node{ID: br.id, Kind: "task", Results: []string{"r_" + br.id}})
+		g.connect(defs, "X2", br.id, &Cond{Var: "flip", Want: br.want, Lang: lang}, -1)
+		g.addNode(&Node{ID: "E" + br.id, Kind: "end"})
+		g.connect(defs, br.id, "E"+br.id, nil, -1)
+	}
+	g.addNode(&Node{ID: "Tdef", Kind: "task", Results: []string{"r_Tdef"}})
+	df2 := g.connect(defs, "X2", "Tdef", nil, -1)
+	g.Node("X2").Default = df2.ID
+	g.addNode(&Node{ID: "Edef", Kind: "end"})
+	g.connect(defs, "Tdef", "Edef", nil, -1)
+	// the sibling that changes the variable (once or twice)
+	g.addNode(&Node{ID: "TB", Kind: "task", Results: []string{"r_TB", "flip"}, Writes: map[string]any{"flip": !init}})
+	g.connect(defs, "F", "TB", nil, -1)
+	cur = "TB"
+	if d.N(3) == 2 {
+		g.addNode(&Node{ID: "TB2", Kind: "task", Results: []string{"r_TB2", "flip"}, Writes: map[string]any{"flip": init}})
+		g.connect(defs, "TB", "TB2", nil, -1)
+		cur = "TB2"
+	}
+	g.addNode(&Node{ID: "EB", Kind: "end"})
+	g.connect(defs, cur, "EB", nil, -1)
+	g.index()
+	prog := &Program{Defs: defs, Vars: vars, Desc: fmt.Sprintf("second gateway reads flip (initially %v) that a sibling task flips while the token waits in a task without results", init), Tags: []string{"stale-variables"}}
+	// answers only when the engine is at rest: a sibling's result is then stored before the next answer is given
+	c := &ProcCase{Prog: prog, Buf: d.N(17), Hold: 2}
+	c.Picks = drawPicks(d, 24)
+	c.Meta = map[string]int{"k": 1}
+	return c
+}
+
 func genC04(d *Draw) Case {
+	switch d.N(6) {
+	case 4:
+		return genC04PerToken(d)
+	case 5:
+		return genC04Stale(d)
+	}
 	if d.N(3) == 2 {
 		return genC04PerToken(d)
 	}
@@ -369,10 +442,21 @@ func genC04(d *Draw) Case {
 	} else {
 		g.addNode(&Node{ID: "F", Kind: "and"})
 		g.connect(defs, "Start", "F", nil, -1)
+		// the k tokens reach the gateway over k incoming flows, or all over a single one (behind a merge):
+		// then there are more tokens inside the gateway at once than it has incoming flows
+		into := "X"
+		if d.Bool() {
+			g.addNode(&Node{ID: "M", Kind: "xor"})
+			into = "M"
+			tags["single-incoming-flow"] = true
+		}
 		for i := 1; i <= k; i++ {
 			u := mk(fmt.Sprintf("U%d", i))
 			g.connect(defs, "F", u.ID, nil, -1)
-			g.connect(defs, u.ID, "X", nil, -1)
+			g.connect(defs, u.ID, into, nil, -1)
+		}
+		if into == "M" {
+			g.connect(defs, "M", "X", nil, -1)
 		}
 	}
 	var desc []string
@@ -456,6 +540,8 @@ func checkC04(cc Case, r *simrt.Result) *Outcome {
 	probe(o, "no-effective-flow", len(tg.M.Errors) > 0)
 	probe(o, "xpath", hasTag(c.Prog.Tags, "xpath"))
 	probe(o, "informal-expression", hasTag(c.Prog.Tags, "informal-expression"))
+	probe(o, "several-tokens-over-one-incoming-flow", hasTag(c.Prog.Tags, "single-incoming-flow"))
+	probe(o, "variable-changed-by-sibling-between-two-gateways", hasTag(c.Prog.Tags, "stale-variables"))
 	o.Sample = map[string]any{"program": c.Prog.Desc, "vars": c.Prog.Vars, "buf": c.Buf, "hold": c.Hold, "requests": tg.Requests, "tags": c.Prog.Tags}
 	return o
 }
